@@ -10,15 +10,18 @@ namespace Rsbdd
 namespace Gen
 namespace Clique
 
+/-- the body of the inner loop of the complement computation (`:66-80`) -/
+def innerStep (edges : List (Nat × Nat)) (undirected : Bool) (v1 : Nat) (acc : List (Nat × Nat)) (v2 : Nat) :
+    List (Nat × Nat) :=
+  if v1 ≠ v2 then
+    if undirected then
+      if !(edges.contains (v1, v2) || edges.contains (v2, v1) || acc.contains (v2, v1)) then acc ++ [(v1, v2)] else acc
+    else if !(edges.contains (v1, v2)) then acc ++ [(v1, v2)] else acc
+  else acc
+
 /-- the double loop computing the complement edge list (`:64-82`) -/
 def complement (edges : List (Nat × Nat)) (vs : List Nat) (undirected : Bool) : List (Nat × Nat) :=
-  vs.foldl (fun acc v1 =>
-    vs.foldl (fun acc v2 =>
-      if v1 ≠ v2 then
-        if undirected then
-          if !(edges.contains (v1, v2) || edges.contains (v2, v1) || acc.contains (v2, v1)) then acc ++ [(v1, v2)] else acc
-        else if !(edges.contains (v1, v2)) then acc ++ [(v1, v2)] else acc
-      else acc) acc) []
+  vs.foldl (fun acc v1 => vs.foldl (innerStep edges undirected v1) acc) []
 
 def conj (fs : List Formula) (last : Formula) : Formula := fs.foldr (fun f acc => .bin .and f acc) last
 
